@@ -49,6 +49,9 @@ type Driver struct {
 	// OnDecl is called after a declaration introduced names into the current scope.
 	OnDecl func(names []*ast.Ident)
 
+	// StmtComments, if set, gives the comment group to attach to a statement (CodeBuilder.SetComments).
+	StmtComments map[ast.Stmt]*ast.CommentGroup
+
 	imports map[string]string // file-local import name -> path (current file)
 	tparams []map[string]*types.TypeParam
 	labels  []map[string][]*gogen.Label // per function body: label name -> labels in definition order
@@ -791,6 +794,9 @@ func (d *Driver) stmt(s ast.Stmt) {
 	d.Cur = s
 	if d.OnStmtStart != nil {
 		d.OnStmtStart(s)
+	}
+	if cg := d.StmtComments[s]; cg != nil {
+		d.do("SetComments", 0, func() { d.CB.SetComments(cg, true) })
 	}
 	d.stmt0(s)
 	if d.OnStmt != nil {
